@@ -42,7 +42,10 @@ Skel(h) ==
          B("Sub", h, L), B("Sub", tt, h), Look(h, "p") }
 SliceForms == { N("Slice", << L >>), N("Slice", << L, L >>), N("Slice", << NoneE, L >>),
                 N("Slice", << L, NoneE >>), N("Slice", << NoneE, NoneE >>),
-                N("Slice", << L, L, L >>), N("Slice", << NoneE, NoneE, L >>), N("Slice", << NoneE >>) }
+                N("Slice", << L, L, L >>), N("Slice", << NoneE, NoneE, L >>), N("Slice", << NoneE >>),
+                \* falsy bounds are bounds, not omissions
+                N("Slice", << KI(0), L >>), N("Slice", << L, KI(0) >>), N("Slice", << KI(0), L, KI(0) >>),
+                N("Slice", << K(BoolV(FALSE)), L >>), N("Slice", << N("Product", << KI(0), x >>), L >>) }
 Extra == { B("Sub", tt, N("Tup", << A, L >>)), B("Sub", tt, N("Tup", << L >>)), B("Sub", tt, I),
            N("Tup", << A >>), N("Tup", << A, L >>), N("Tup", << >>),
            B("Sub", tt, N("Tup", << L, I >>)) }
